@@ -101,7 +101,8 @@ class CompressionHandler:
                 with contextlib.suppress(ValueError, IndexError):
                     parsed_headers[alg_name] = float(alg[1].split("=")[1])
 
-        return [pair[0] for pair in sorted(parsed_headers.items(), key=lambda kv: kv[1], reverse=True)]
+        # q=0 means "not acceptable"
+        return [pair[0] for pair in sorted(parsed_headers.items(), key=lambda kv: kv[1], reverse=True) if pair[1] > 0]
 
 
 class GzipCompressionHandler(AbstractDataCompressor):
@@ -127,7 +128,8 @@ class Lz4CompressionHandler(AbstractDataCompressor):
 
     @staticmethod
     def compress_payload(payload: bytes):
-        return lz4.frame.compress(payload)
+        # with checksum, otherwise a corrupted frame can be decompressed to wrong data without any error
+        return lz4.frame.compress(payload, content_checksum=True)
 
     @staticmethod
     def decompress_payload(payload: bytes):
